@@ -274,6 +274,13 @@ func (m *BasicMutableWorld) AddFeature(f Feature) error {
 func (m *BasicMutableWorld) AddTag(id b6.FeatureID, tag b6.Tag) error {
 	tokenAfter, indexedAfter := b6.TokenForTag(tag)
 	if f := m.features.FindMutableFeatureByID(id); f != nil {
+		if !isIndexed(f) {
+			// The feature has no tokens at all yet (not even for its
+			// location), so index it from scratch now it has a tag.
+			f.ModifyOrAddTag(tag)
+			m.index.Add(f, TokensForFeature(WrapFeature(f, m)))
+			return nil
+		}
 		var tokenBefore string
 		var indexedBefore bool
 		if before := f.Get(tag.Key); before.IsValid() {
@@ -880,6 +887,13 @@ func (m *MutableOverlayWorld) AddFeature(f Feature) error {
 func (m *MutableOverlayWorld) AddTag(id b6.FeatureID, tag b6.Tag) error {
 	tokenAfter, indexedAfter := b6.TokenForTag(tag)
 	if f := m.features.FindMutableFeatureByID(id); f != nil {
+		if !isIndexed(f) {
+			// The feature has no tokens at all yet (not even for its
+			// location), so index it from scratch now it has a tag.
+			f.ModifyOrAddTag(tag)
+			m.index.Add(f, TokensForFeature(WrapFeature(f, m)))
+			return nil
+		}
 		var tokenBefore string
 		var indexedBefore bool
 		if before := f.Get(tag.Key); before.IsValid() {
@@ -898,7 +912,7 @@ func (m *MutableOverlayWorld) AddTag(id b6.FeatureID, tag b6.Tag) error {
 		if base == nil {
 			return fmt.Errorf("No feature with ID %s", id)
 		}
-		if indexedAfter {
+		if indexedAfter || !isIndexed(base) {
 			f = NewFeatureFromWorld(base)
 			f.ModifyOrAddTag(tag)
 			m.features.AddFeature(f)
